@@ -17,6 +17,31 @@ Record scope := { sc_action : action; sc_path : option (list seg) }.
 (* ---------- characters ---------- *)
 Definition is_ws (c : Z) : bool :=
   (c =? 32) || ((9 <=? c) && (c <=? 13)).
+(* Strings are UTF-8 byte lists.  Rust's `\s` (regex, Unicode mode) and char::is_whitespace also cover the
+   White_Space characters beyond ASCII: U+0085 U+00A0 (2 bytes), U+1680, U+2000..U+200A, U+2028, U+2029,
+   U+202F, U+205F, U+3000 (3 bytes).  `ascii_ws` replaces each of their encodings by a space, so that the
+   byte-level definitions below see every whitespace character as one. *)
+Definition uni_ws2 (a b : Z) : bool := (a =? 194) && ((b =? 133) || (b =? 160)).
+Definition uni_ws3 (a b c : Z) : bool :=
+  ((a =? 225) && (b =? 154) && (c =? 128))
+  || ((a =? 226) && (b =? 128) && (((128 <=? c) && (c <=? 138)) || (c =? 168) || (c =? 169) || (c =? 175)))
+  || ((a =? 226) && (b =? 129) && (c =? 159))
+  || ((a =? 227) && (b =? 128) && (c =? 128)).
+Fixpoint ascii_ws (s : list Z) : list Z :=
+  match s with
+  | [] => []
+  | a :: r1 =>
+    match r1 with
+    | [] => [a]
+    | b :: r2 =>
+      if uni_ws2 a b then 32 :: ascii_ws r2
+      else match r2 with
+           | [] => a :: ascii_ws r1
+           | c :: r3 => if uni_ws3 a b c then 32 :: ascii_ws r3 else a :: ascii_ws r1
+           end
+    end
+  end.
+
 Definition is_upper (c : Z) : bool := (65 <=? c) && (c <=? 90).
 Definition is_lower (c : Z) : bool := (97 <=? c) && (c <=? 122).
 Definition is_digit (c : Z) : bool := (48 <=? c) && (c <=? 57).
@@ -33,7 +58,7 @@ Fixpoint split_ws_aux (s : list Z) (cur : list Z) : list (list Z) :=
               then match cur with [] => split_ws_aux r [] | _ => rev cur :: split_ws_aux r [] end
               else split_ws_aux r (c :: cur)
   end.
-Definition split_ws (s : list Z) : list (list Z) := split_ws_aux s [].
+Definition split_ws (s : list Z) : list (list Z) := split_ws_aux (ascii_ws s) [].
 
 (* split at every occurrence of a separator (keeps empty pieces) *)
 Fixpoint split_on_aux (sep : Z) (s : list Z) (cur : list Z) : list (list Z) :=
